@@ -222,6 +222,28 @@ def run_terms(ctx):
         else:
             ctx.count('history edit before the compared build', 'no history (fresh terms)')
         progs.append(pr)
+    # in every run: a few programs that contain a cyclic spline whose penalty is 'auto' (what 'auto' means depends on the
+    # basis), each with the history "build, switch the basis to 'ps', build again"
+    extra, tries = 0, 0
+    while extra < (6 if ctx.tier == 'quick' else 30) and tries < 400:
+        rng = ctx.subrng('tprog-cp-auto', tries)
+        tries += 1
+        try:
+            pr = termgen.gen_program(rng, pygam, allow_constraints=False, allow_periodic_penalty=True, n_query=1, max_terms=3)
+        except ValueError:
+            continue
+        leaves = [s_ for t in pr.terms if not t.isintercept for s_ in (t._terms if t.istensor else [t])]
+        if not any(s_._name == 'spline_term' and s_.basis == 'cp' and 'auto' in list(s_.penalties) for s_ in leaves):
+            continue
+        try:
+            edits = apply_history(rng, pr.terms)
+        except ValueError:
+            continue
+        pr.tokens = termgen.encode_terms(pr.terms)
+        for e_ in edits or ['none']:
+            ctx.count('history edit before the compared build', e_)
+        progs.append(pr)
+        extra += 1
     ops, meta = [], []
     for pr in progs:
         toks = ' '.join(pr.tokens)
